@@ -349,6 +349,9 @@ size_t WaveletTreeNoptrs::rank(uint symbol, size_t pos) const {
   size_t start = 0;
   size_t end = n - 1;
   size_t count = 0;
+  // (a sequence whose only symbol is 0 has no levels)
+  if (height == 0)
+    return (symbol == 0) ? pos + 1 : 0;
   while (level < height) {
     if (is_set(symbol, level)) {
       pos =
